@@ -19,6 +19,16 @@ const ROWS: &[&str] = &["A", "Q", "Z", "1", "`", "a", "q", "X", "", "GRAVE"];
 const LETTERS: &[&str] = &["aoeu", "AOEU", "=+-", " {}% \\*][|~", "aaaaaaaaaaaaaaaaaaaaaaaaaa", "", " ", "é", "a b", "\"'", "aa", "qwertyuiop[]\\", "1234567890-=", "\u{0}", "\t"];
 
 fn key(rng: &mut Rng) -> Value { json!(rng.pick(KEYS)) }
+/// letters of a row mapping: a fixed interesting string, or a random one whose length lies around
+/// the physical row lengths (10-13) and that mixes one-, two-, three- and four-byte characters
+fn letters(rng: &mut Rng) -> String {
+  if rng.chance(1, 2) { return rng.pick(LETTERS).to_string(); }
+  let pool: [&str; 18] = ["a", "b", "Z", "=", "+", " ", "{", "\\", "1", "é", "ü", "€", "→", "😀", "ß", "'", "\"", "~"];
+  let n = [0, 1, 3, 9, 10, 11, 12, 13, 14, 15, 20, 27][rng.below(12)];
+  let mut s = String::new();
+  for _ in 0..n { s.push_str(pool[if rng.chance(1, 3) { 9 + rng.below(6) } else { rng.below(18) }]); }
+  s
+}
 fn keys_v(rng: &mut Rng, min: usize) -> Value {
   let n = min + rng.below(3);
   if n == 1 && rng.chance(1, 2) { return key(rng); }
@@ -37,7 +47,7 @@ fn repeat(rng: &mut Rng, row: bool) -> Value {
     0 => json!("Disabled"), 1 => json!("normal"), 2 => json!("NORMAL"), 3 => json!("weird"), 4 => json!("disabled"),
     5 => junk(rng),
     _ => {
-      let keys = if row { if rng.chance(1, 2) { json!({"letters": rng.pick(LETTERS)}) } else { json!(["LEFTCTRL", {"letters": rng.pick(LETTERS)}]) } } else { keys_v(rng, 0) };
+      let keys = if row { if rng.chance(1, 2) { json!({"letters": letters(rng)}) } else { json!(["LEFTCTRL", {"letters": letters(rng)}]) } } else { keys_v(rng, 0) };
       let mut o = json!({"keys": keys, "delay_ms": number(rng), "interval_ms": if rng.chance(1, 3) { number(rng) } else { json!(30) }});
       if rng.chance(1, 10) { o.as_object_mut().unwrap().remove("interval_ms"); }
       if rng.chance(1, 10) { o.as_object_mut().unwrap().insert("extra".into(), json!(1)); }
@@ -54,7 +64,7 @@ fn mapping(rng: &mut Rng) -> Value {
     let r = json!({"row": rng.pick(ROWS)});
     let from = if rng.chance(1, 2) { r } else { let mut v = vec![]; for _ in 0..1 + rng.below(2) { v.push(key(rng)); } if rng.chance(1, 8) { v.insert(0, r.clone()); } else { v.push(r); } Value::Array(v) };
     m.insert("from".into(), from);
-    let l = json!({"letters": rng.pick(LETTERS)});
+    let l = json!({"letters": letters(rng)});
     let to = if rng.chance(1, 2) { l } else { Value::Array(vec![key(rng), l]) };
     m.insert("to".into(), to);
   } else if kind == 9 {
